@@ -594,3 +594,123 @@ func e10ResizeArms(p *Prog, r *Report, rule string) {
 	}
 	r.Count("e10.resize_arms", n)
 }
+
+// ---------------------------------------------------------------------------------
+// E10b: no send on a closed channel.  A channel field that is both closed and sent to is
+// safe only if every sender obtains the owner by a lookup in a container M under a lock L
+// and sends inside that same critical section, and every close is dominated by the
+// removal of the owner from M under L.
+
+func e10SendOnClosable(p *Prog, r *Report, rule string) {
+	type site struct {
+		fn *ssa.Function
+		in ssa.Instruction
+		ch ssa.Value
+	}
+	closes := map[*types.Var][]site{}
+	sends := map[*types.Var][]site{}
+	for _, fn := range p.Funcs {
+		EachInstr(fn, func(in ssa.Instruction) {
+			switch x := in.(type) {
+			case *ssa.Send:
+				if fa := chanField(x.Chan); fa != nil {
+					sends[FieldVar(fa)] = append(sends[FieldVar(fa)], site{fn, in, x.Chan})
+				}
+			case *ssa.Select:
+				for _, st := range x.States {
+					if st.Dir == types.SendOnly {
+						if fa := chanField(st.Chan); fa != nil {
+							sends[FieldVar(fa)] = append(sends[FieldVar(fa)], site{fn, in, st.Chan})
+						}
+					}
+				}
+			case ssa.CallInstruction:
+				c := x.Common()
+				if IsBuiltin(c, "close") {
+					if fa := chanField(c.Args[0]); fa != nil {
+						closes[FieldVar(fa)] = append(closes[FieldVar(fa)], site{fn, in, c.Args[0]})
+					}
+				}
+			}
+		})
+	}
+	n := 0
+	for fv, ss := range sends {
+		cs := closes[fv]
+		if len(cs) == 0 {
+			continue
+		}
+		n++
+		fkey := fv.Pkg().Name() + "." + fv.Name()
+		// senders
+		var mapField *types.Var
+		lockAbs := ""
+		for _, s := range ss {
+			key := fmt.Sprintf("%s/send(%s)", p.FuncName(s.fn), fkey)
+			fa := chanField(s.ch)
+			owner := fa.X
+			// owner must come from a comma-ok map lookup
+			var lk *ssa.Lookup
+			if ex, ok := owner.(*ssa.Extract); ok {
+				lk, _ = ex.Tuple.(*ssa.Lookup)
+			}
+			if lk == nil || !lk.CommaOk {
+				r.Bad(rule, key, p.InstrPos(s.in), "send on "+fkey+", a channel that is closed elsewhere, whose owner is not obtained by a checked lookup in the same critical section: a concurrent close makes this send panic")
+				continue
+			}
+			mfa := chanField(lk.X)
+			if mfa == nil {
+				r.Bad(rule, key, p.InstrPos(s.in), "owner lookup is not in a container field")
+				continue
+			}
+			// same critical section: a lock acquisition instance held at both
+			same := ""
+			for _, h1 := range p.E1().held[lk] {
+				for _, h2 := range p.E1().held[s.in] {
+					if h1.At == h2.At {
+						same = h1.Abs
+					}
+				}
+			}
+			if same == "" {
+				r.Bad(rule, key, p.InstrPos(s.in), "the send on "+fkey+" is not in the critical section in which its owner was looked up (lock released in between): the owner can be cancelled and the channel closed before the send => panic: send on closed channel")
+				continue
+			}
+			mapField = FieldVar(mfa)
+			lockAbs = same
+			r.OK(rule, key, p.InstrPos(s.in), "owner looked up in "+Desc(mfa)+" and sent to within one critical section of "+same)
+		}
+		for _, c := range cs {
+			key := fmt.Sprintf("%s/close(%s)", p.FuncName(c.fn), fkey)
+			if mapField == nil {
+				r.Bad(rule, key, p.InstrPos(c.in), "close of "+fkey+" which is also sent to, and no disciplined sender was found")
+				continue
+			}
+			ok := false
+			EachInstr(c.fn, func(in ssa.Instruction) {
+				cc := CallOf(in)
+				if cc == nil || !IsBuiltin(cc, "delete") {
+					return
+				}
+				mfa := chanField(cc.Args[0])
+				if mfa == nil || FieldVar(mfa) != mapField {
+					return
+				}
+				if !InstrDominates(in, c.in) {
+					return
+				}
+				for _, h := range p.E1().held[in] {
+					if h.Abs == lockAbs {
+						ok = true
+					}
+				}
+			})
+			if ok {
+				r.OK(rule, key, p.InstrPos(c.in), "dominated by the removal of the owner from "+mapField.Name()+" under "+lockAbs)
+			} else {
+				r.Bad(rule, key, p.InstrPos(c.in), "close of "+fkey+" is not dominated by delete("+mapField.Name()+", …) under "+lockAbs+": a sender that still finds the owner sends on a closed channel")
+			}
+		}
+	}
+	r.Count("e10.closed_and_sent_channel_fields", n)
+}
